@@ -512,14 +512,12 @@ class CheckedCoverageInstrumentation(python3_11.CheckedCoverageInstrumentation):
                     )
                 )
             case "BINARY_SLICE":
-                # Instrumentation mostly after the original instruction
-                node.basic_block[override(instr_index)] = (
-                    self.instructions_generator.generate_overriding_instructions(
-                        InstrumentationSetupAction.COPY_THIRD_SHIFT_DOWN_THREE,
-                        instr,
-                        method_call,
-                        instr.lineno,
-                    )
+                # Instrumentation before the original instruction: BINARY_SLICE leaves its
+                # result on the stack, so nothing may be removed from the stack after it.
+                node.basic_block[before(instr_index)] = self.instructions_generator.generate_instructions(
+                    InstrumentationSetupAction.COPY_THIRD,
+                    method_call,
+                    instr.lineno,
                 )
 
     def visit_deref_access(  # noqa: D102, PLR0917
